@@ -316,7 +316,8 @@ C05(pre, e, post, line) ==
     /\ Chk("C05", "still_not_healthy_afterwards", line, RLe(Health(hPost), hPost.tol), [acct |-> lee])
     /\ Chk("C05", "repaid_debt_did_not_become_deposit", line, BLt(PosBits(post.accts[lee], lbn, "a"), FONE), [acct |-> lee])
     /\ Chk("C05", "seized_collateral_did_not_become_debt", line, BLe(PosBits(post.accts[lee], abn, "l"), PosBits(pre.accts[lee], abn, "l")), [acct |-> lee])   \* taking collateral never opens (even a sub-unit) debt
-    /\ (abn # lbn) => Chk("C05", "seizing_opens_no_debt_in_the_collateral_bank", line, abq.tls = ab.tls, [bank |-> abn])
+    \* (the collateral bank's debt total may fall - a liquidator who owes in that bank repays with what it seizes - but never rises)
+    /\ (abn # lbn) => Chk("C05", "seizing_opens_no_debt_in_the_collateral_bank", line, BLe(abq.tls, ab.tls), [bank |-> abn])
     /\ Chk("C05", "liquidator_remains_initially_healthy", line, RGe(Health(hLor), RNeg(hLor.tol)), [acct |-> lor])
     /\ Chk("C05", "prices_usable_and_positive", line,
            pa.usable # "no" /\ pl.usable # "no" /\ RIsPos(Low(pa)) /\ RIsPos(High(pl)), [asset_bank |-> abn, liab_bank |-> lbn])
